@@ -349,9 +349,9 @@ val parse_into :
 
 val reparse : naive_mode -> precision -> pconstraint -> tsinput -> tsinput
 
-val write :
-  naive_mode -> year_mode -> precision -> pconstraint -> tsinput -> ustring
-  result
+val write_as :
+  naive_mode -> year_mode -> precision -> pconstraint -> precision ->
+  pconstraint -> tsinput -> ustring result
 
 val show_optZ : z option -> char list
 
@@ -363,5 +363,5 @@ val show_parsed :
 val dt : z -> z -> z -> z -> z -> z -> z -> z
 
 val c15_case :
-  nat -> naive_mode -> year_mode -> precision -> pconstraint ->
+  nat -> naive_mode -> year_mode -> precision -> pconstraint -> bool ->
   (precision * pconstraint) option -> tsinput -> char list
